@@ -37,7 +37,7 @@ def shards(native_q, native_t=None, emu_q=None, emu_t=None):
 def byte_stages(with_bitmaps=True):
     st = [
         {"name": "bytes-exh", "cmd": "bytes-exh", "configs": cfgs(NATIVE + EMU), "shards": shards(16, 16, 8, 16)},
-        {"name": "bytes-pbt", "cmd": "bytes-pbt", "configs": cfgs(NATIVE + EMU), "shards": shards(4, 16, 2, 8)},
+        {"name": "bytes-pbt", "cmd": "bytes-pbt", "configs": cfgs(NATIVE + EMU + ["E-a64nn"]), "shards": shards(4, 16, 2, 8)},
     ]
     if with_bitmaps:
         st.append({"name": "bytes-bitmaps", "cmd": "bytes-bitmaps", "configs": cfgs(["N-auto"] + EMU), "shards": shards(8, 16, 2, 4)})
@@ -214,7 +214,7 @@ PLANS = {
         "rule": "One natively generated case file (byte search, byte iterators with generated next/next_back/count call patterns, substring search incl. "
                 "every building block and complete iterator sequences, packed pair with explicit offsets on both sides of min_haystack_len, is_equal/"
                 "is_prefix/is_suffix, finder histories, and long periodic haystacks of 2-20 KB with the needle every 1..64 bytes) is executed by `mvexec` built as: native at three forced CPU levels (AVX2 / SSE2 only / neither), "
-                "--no-default-features, alloc only, -C target-feature=+avx2, plain release (no debug assertions), emulated NEON / simd128 / no-SIMD wiring, "
+                "--no-default-features, alloc only, -C target-feature=+avx2, plain release (no debug assertions), emulated NEON / simd128 / no-SIMD wiring / aarch64 without the neon feature, "
                 "and interpreted by Miri for x86_64 (SSE2), x86_64+avx2, aarch64 (real NEON intrinsics), i686 and big-endian s390x (SWAR fallback). "
                 "The judge puts every observation into an equivalence class (first position, last position, count, iterator sequence, leftmost / rightmost "
                 "occurrence, find_iter / rfind_iter sequence, packed-pair find, ...) and requires ALL implementations in ALL configurations to report the "
@@ -222,11 +222,11 @@ PLANS = {
                 "C09's; the naive oracle is only used to word which side of a disagreement is wrong. Non-trivial: a case executed in >= 2 configurations "
                 "with a match (haystack >= 16 bytes).",
         "stages": [
-            {"name": "casefile", "kind": "casefile", "configs": cfgs(NATIVE + ["X-nostd", "X-alloc", "X-avx2ct", "X-plain"] + EMU + ["M-x86", "M-avx2", "M-a64", "M-i686", "M-s390x"]),
+            {"name": "casefile", "kind": "casefile", "configs": cfgs(NATIVE + ["X-nostd", "X-alloc", "X-avx2ct", "X-plain"] + EMU + ["E-a64nn"] + ["M-x86", "M-avx2", "M-a64", "M-i686", "M-s390x"]),
              "count": {"quick": 300000, "thorough": 4000000}, "miri_count": {"quick": 40, "thorough": 4000}, "miri_per_shard": 20, "fast_shards": 16},
         ],
         "assumptions": DEFAULT_ASSUMPTIONS + ["Miri's implementation of the x86/aarch64 vendor intrinsics is faithful", "compile-time -sse2 cannot be built for this target: 'CPU without SSE2' exists only as the forced level"],
-        "technique": "differential testing: generated case files executed in 15 build/CPU/target configurations, record-for-record comparison",
+        "technique": "differential testing: generated case files executed in 16 build/CPU/target configurations, record-for-record comparison",
     },
     "C10": {
         "technique": 'metamorphic / differential property testing: 16 builder configurations (8 rankers x 2 prefilter settings) must agree on generated inputs',
